@@ -1328,4 +1328,48 @@ example :
 
 end SourceIdentity
 
+section Positions
+open GroupByIR
+
+/-- No frame has this many columns (a row of `2 ^ 31` cells is a 16 GiB tuple).  The bound stands OUTSIDE the
+quantifier of `key_positions_fit`: `array.array("i", …)`, which `_map` uses now, is a C `int` (32 bits on every
+platform CPython supports), so the statement "for every position" is true of the source only below it. -/
+def positionLimit : Nat := 2 ^ 31
+
+/-- Clause "for all frames … all one- and multi-column keys" — the WIDTH of the frame: whatever the positions of the
+key columns in the frame (below `positionLimit`), the container `_map` of the working tree builds for them
+(`Gen.GroupByCode.keyPositions`, read from `group_column_indicies = …` on every run) takes them all and hands them
+back unchanged: building it raises nothing, and every row is keyed by the cells at exactly those positions.  With
+`bytes(…)` (the seeded change C12-w9s2) the statement is false at position 256, with `array.array("h", …)` at 32768. -/
+theorem key_positions_fit (ps : List Nat) (h : ∀ p ∈ ps, p < positionLimit) :
+    Gen.GroupByCode.keyPositions.store (ps.map Int.ofNat) = .ok (ps.map Int.ofNat) := by
+  apply PosContainer.store_ok
+  intro p hp
+  obtain ⟨n, hn, rfl⟩ := List.mem_map.mp hp
+  have hlt := h n hn
+  simp only [positionLimit] at hlt
+  simp [Gen.GroupByCode.keyPositions, PosContainer.holds] <;> omega
+
+/-- The same for the positions of the requested (value) columns, `collect_column_indicies`; `-1` stands there for
+"not a column of the frame" (the `*` of `COUNT(*)`), so the container has to hold it too. -/
+theorem value_positions_fit (ps : List Int) (h : ∀ p ∈ ps, -1 ≤ p ∧ p < positionLimit) :
+    Gen.GroupByCode.valuePositions.store ps = .ok ps := by
+  apply PosContainer.store_ok
+  intro p hp
+  have hlt := h p hp
+  simp only [positionLimit] at hlt
+  simp [Gen.GroupByCode.valuePositions, PosContainer.holds] <;> omega
+
+/-- Tightness: a `bytes` object refuses position 256 (and takes 255), a signed 16-bit array refuses 32768, an
+unsigned container refuses the `-1` of `COUNT(*)`. -/
+example :
+    PosContainer.bytes.store [3, 256] = .error "ValueError"
+    ∧ PosContainer.bytes.store [3, 255] = .ok [3, 255]
+    ∧ (PosContainer.array 16 true).store [32768] = .error "OverflowError"
+    ∧ (PosContainer.array 16 false).store [-1] = .error "OverflowError"
+    ∧ (PosContainer.array 32 true).store [65536, -1] = .ok [65536, -1] := by
+  decide
+
+end Positions
+
 end C12
